@@ -104,6 +104,15 @@ def body(run):
                 run.add_violation('to_rio_dataset misplaced the validity mask (dataset without nodata value)', rm['desc'],
                                   expected='mask inside the cropped window = validity of the array pixel at that location; untouched outside',
                                   observed=dict(err=rm['err'], **rm['observed']), signature=dict(kind='write-mask-wrong'))
+    # several blocks, one after the other, into a fresh dataset without a nodata value
+    for k in range(run.scale(30, 300)):
+        rb = impl_io.write_blocks_case(run.work, wrng, wrng.randint(4, 12), wrng.randint(4, 12))
+        rels['write-blocks'] = rels.get('write-blocks', 0) + 1
+        run.count_case(('wb', k), True, rb['desc'] if k < 1 else None)
+        if not rb['oracle_ok']:
+            run.add_violation('to_rio_dataset misplaced the validity mask (dataset without nodata value)', rb['desc'],
+                              expected='every block\'s pixels and validity at its place after all blocks were written', observed=dict(err=rb['err'], **rb['observed']),
+                              signature=dict(kind='write-mask-wrong'))
     failing, nt = run.corr('io', 'Corr.CheckC20', cases, shard=400)
     for k in failing[:5]:
         run.add_break('correspondence-break', 'from_rio_dataset / to_rio_dataset differ from Grid.Dataset.read_window / write_window', metas[k])
